@@ -93,6 +93,13 @@ var _ = reserr.ErrTimeout
 //@   loop 1 assume predReqsOK(c) && c.tq != nil && msg != nil
 //@   safety[C15]
 
+// close: whoever closes the adapter - Stop, or the adapter itself on a slow consumer error - leaves
+// the closed handler in place: it is what tells the service that the connection is gone.
+//@ func (*Client).close
+//@   requires c != nil
+//@   ensures[C18,C20] c.closeHandler == old(c.closeHandler)
+//@   safety[C15]
+
 // onClose: the closed handler, if set, is invoked with the cause.
 //@ func (*Client).onClose
 //@   requires c != nil && conn != nil
